@@ -1,0 +1,24 @@
+//go:build verif
+
+package queue
+
+import "sync/atomic"
+
+// VerifHook, when set, is called at the named schedule points of the processor
+// (verification harness only; built with the "verif" tag).
+var VerifHook atomic.Pointer[func(point string)]
+
+func verifPoint(point string) {
+	if h := VerifHook.Load(); h != nil {
+		(*h)(point)
+	}
+}
+
+// VerifState reports the processor's queue length, whether a processing loop
+// holds the running token, whether a reset signal is pending and whether the
+// processor was stopped.
+func (p *Processor[K, T]) VerifState() (queued int, tokenHeld bool, resetPending bool, stopped bool) {
+	p.lock.Lock()
+	defer p.lock.Unlock()
+	return p.queue.Len(), len(p.processorRunningCh) == 1, len(p.resetCh) == 1, p.stopped.Load()
+}
